@@ -1,6 +1,7 @@
 package props
 
 import (
+	"crypto/tls"
 	"bytes"
 	"fmt"
 	"strings"
@@ -8,6 +9,7 @@ import (
 	"time"
 
 	"github.com/mholt/caddy-l4/layer4"
+	"github.com/caddyserver/caddy/v2/modules/caddyhttp/reverseproxy"
 	"github.com/mholt/caddy-l4/modules/l4proxy"
 
 	"verif/sim/gen"
@@ -42,6 +44,7 @@ func runC08(t *testing.T, e *worlds.Env, tier string) (bool, any) {
 		client *worlds.Client
 	}
 	var conns []*cs
+	var who *whoRec
 	e.Run(t, func() func() bool {
 		tp := e.T
 		e.N.Cfg = netKnobs(e)
@@ -75,7 +78,9 @@ func runC08(t *testing.T, e *worlds.Env, tier string) (bool, any) {
 			Handlers: []HSpec{{Kind: "recorder", Name: "recC", MaxBuf: 3000}}}}}}
 		// proxy with shared upstreams
 		ups = e.NewProxyUps()
-		ups.ScriptFor = func(string, int) *worlds.UpScript { return &worlds.UpScript{Mode: worlds.UpEcho, AbortAt: -1} }
+		ups.ScriptFor = func(addr string, _ int) *worlds.UpScript {
+			return &worlds.UpScript{Mode: worlds.UpEcho, AbortAt: -1, TLS: addr == "10.1.9.1:443"}
+		}
 		var pool l4proxy.UpstreamPool
 		for i := 0; i < 3; i++ {
 			addr := fmt.Sprintf("10.1.0.%d:80", i+1)
@@ -109,6 +114,17 @@ func runC08(t *testing.T, e *worlds.Env, tier string) (bool, any) {
 			panic(err)
 		}
 		recV := HSpec{Kind: "recorder", Name: "recV", MaxBuf: 4096}
+		// TLS on both sides, transparent: the proxy's `tls` option without any customisation takes
+		// server name and protocols for the upstream handshake from the client's own ClientHello
+		tlsH := HSpec{Kind: "tls", Name: "tlsT"}
+		who = &whoRec{e: e, by: map[string]int{}}
+		ups.Add("tcp", "10.1.9.1:443", 0)
+		pt := &l4proxy.Handler{Upstreams: l4proxy.UpstreamPool{&l4proxy.Upstream{Dial: []string{"tcp/10.1.9.1:443"}, TLS: &reverseproxy.TLSConfig{}}}}
+		if err := pt.Provision(e.Ctx); err != nil {
+			panic(err)
+		}
+		pt.VerifSetLogger(e.Log)
+		e.S.OnCleanup(func() { _ = pt.Cleanup() })
 		// a subroute whose inner route is not terminal: the connection falls through it to the
 		// handler after the subroute (the continuation is per connection)
 		conEk := tp.Pick("consume-e", 1, 4, 11)
@@ -123,6 +139,7 @@ func runC08(t *testing.T, e *worlds.Env, tier string) (bool, any) {
 			// the subroute ends its route; the stream as it left it (next byte 'e') selects the next route
 			layer4.VerifNewRoute([]layer4.MatcherSet{{first('E')}}, []layer4.NextHandler{b.Handler(&subE, sig)}),
 			layer4.VerifNewRoute([]layer4.MatcherSet{{first('e')}}, []layer4.NextHandler{b.Handler(&recE, sig)}),
+			layer4.VerifNewRoute([]layer4.MatcherSet{{first(0x16)}}, []layer4.NextHandler{b.Handler(&tlsH, sig), who, pt}),
 		}
 		w = e.NewTCPWorld(routes, 0)
 		maxN := 32
@@ -131,14 +148,17 @@ func runC08(t *testing.T, e *worlds.Env, tier string) (bool, any) {
 		}
 		n := 2 + tp.LogRange(0, maxN-2, "nconn")
 		sample.Conns = n
-		classes := []byte{'A', 'B', 'C', 'D', 'V', 'Z', 'E'}
+		classes := []byte{'A', 'B', 'C', 'D', 'V', 'Z', 'E', 'T'}
 		for i := 1; i <= n; i++ {
 			cls := classes[tp.Choose(len(classes), "class")]
 			plan := &worlds.ClientPlan{ID: i, Addr: worlds.ClientAddr(i), End: worlds.EndHalfClose}
 			plan.StartAt = time.Duration(tp.Choose(4, "start-ms")) * time.Millisecond
 			m := &worlds.ConnModel{ID: i, Key: e.S.Seed*1009 + uint64(i), Addr: plan.Addr.String()}
 			ln := 12 + tp.LogRange(0, 6000, "len") // >= 12 bytes: a stream is identifiable from its content
-			if cls == 'V' {
+			if cls == 'T' {
+				plan.TLS = &tls.Config{InsecureSkipVerify: true, ServerName: fmt.Sprintf("c%d.sim.test", i)}
+				m.App = worlds.Stream(m.Key, ln)
+			} else if cls == 'V' {
 				m.App = ov.Valid(tp, true)
 			} else {
 				m.App = worlds.Stream(m.Key, ln)
@@ -197,7 +217,25 @@ func runC08(t *testing.T, e *worlds.Env, tier string) (bool, any) {
 			}
 			usedBy[m.ID]++
 		}
+		// TLS upstream connections: the server name offered upstream is the one this client offered
+		for _, r := range recs {
+			if r.Addr != "10.1.9.1:443" || r.SNI == "" {
+				continue
+			}
+			id, ok := who.by[r.By]
+			if !ok {
+				continue
+			}
+			if want := fmt.Sprintf("c%d.sim.test", id); r.SNI != want {
+				fail("cross-talk", "the upstream TLS handshake made for conn %d offered server name %q; that client offered %q (the name belongs to another connection)", id, r.SNI, want)
+				return
+			}
+			e.S.Stats["probe_transparent_tls_upstream_handshake"]++
+		}
 		for _, c := range conns {
+			if c.class == 'T' {
+				continue
+			}
 			m := c.model
 			ran := map[string]bool{}
 			for _, hc := range m.HandlerCalls {
@@ -253,4 +291,21 @@ func keys(m map[string]bool) string {
 		ks = append(ks, k)
 	}
 	return strings.Join(ks, ",")
+}
+
+
+// whoRec notes which handler goroutine serves which client (by the client's address).
+type whoRec struct {
+	e  *worlds.Env
+	by map[string]int
+}
+
+func (w *whoRec) Handle(cx *layer4.Connection, next layer4.Handler) error {
+	if m := w.e.Reg.Lookup(cx.RemoteAddr()); m != nil {
+		g := w.e.S.Name()
+		lk()
+		w.by[g] = m.ID
+		ulk()
+	}
+	return next.Handle(cx)
 }
